@@ -309,6 +309,8 @@ func (g *Gen) deferInstr(st *State, x *ssa.Defer) {
 }
 
 func (g *Gen) runDefers(st *State, x *ssa.RunDefers) {
+	g.inDefers = true
+	defer func() { g.inDefers = false }()
 	for i := len(g.defers) - 1; i >= 0; i-- {
 		d := g.defers[i]
 		if !d.D.Block().Dominates(x.Block()) {
@@ -414,7 +416,37 @@ func (g *Gen) send(st *State, x *ssa.Send) {
 
 func (g *Gen) recv(st *State, x *ssa.UnOp) {
 	g.Abstracted["channel receive: value unconstrained"] = true
-	g.env[x] = g.declare(st, x.Name(), x.Type())
+	v := g.declare(st, x.Name(), x.Type())
+	g.env[x] = v
+	et := x.Type()
+	if x.CommaOk {
+		if tt, ok := x.Type().(*types.Tuple); ok && tt.Len() > 0 && v.K == VTuple && len(v.F) > 0 {
+			g.receivedFacts(st, v.F[0], tt.At(0).Type())
+		}
+		return
+	}
+	g.receivedFacts(st, v, et)
+}
+
+// receivedFacts applies the contract's `assume received <type>: E(v)` clauses.
+func (g *Gen) receivedFacts(st *State, v Val, et types.Type) {
+	if g.C == nil || g.quiet {
+		return
+	}
+	for _, cl := range g.C.RecvAssumes {
+		if cl.Callee != typeStr(et) && cl.Callee != et.String() {
+			continue
+		}
+		sc := g.specCtxVars(st, g.entry, map[string]Val{"v": v})
+		sc.useParams = true
+		t, err := sc.boolTerm(cl.E)
+		if err != nil {
+			g.BindErrs = append(g.BindErrs, fmt.Sprintf("assume %q: %v", cl.Text, err))
+			continue
+		}
+		g.assumeAt(st, t)
+		g.Assumed["assume "+cl.Text+" because "+cl.Why] = true
+	}
 }
 
 func (g *Gen) selectInstr(st *State, x *ssa.Select) {
@@ -428,6 +460,18 @@ func (g *Gen) selectInstr(st *State, x *ssa.Select) {
 		g.assume(And(Le(lo, v.F[0].T), Lt(v.F[0].T, IntLit(int64(len(x.States))))))
 	}
 	g.env[x] = v
+	// received values follow (index, recvOk) in the order of the receive cases
+	k := 2
+	for _, sst := range x.States {
+		if sst.Dir == types.RecvOnly {
+			if v.K == VTuple && k < len(v.F) {
+				if ch, ok := sst.Chan.Type().Underlying().(*types.Chan); ok {
+					g.receivedFacts(st, v.F[k], ch.Elem())
+				}
+			}
+			k++
+		}
+	}
 }
 
 func (g *Gen) makeClosure(st *State, x *ssa.MakeClosure) {
